@@ -230,7 +230,18 @@ def run(ctx, ck) -> None:
             ck.obs.append(o)
     ck.floor('O7', sum(1 for o in ck.obs if o.rule.endswith('O7')), 14, 'structure guards of the arithmetic dunders')
 
-    # ------------------------------------------------------------------ O5 sizes and dtypes
+    # ------------------------------------------------------------------ O8 the structure a block row / column declares is the one of its first
+    # block: honest only if the construction refuses blocks that do not share it (shared with C10.B6)
+    from . import c10
+
+    sub3 = type(ck)(ck.pid)
+    c10.construction_validation(ctx, sub3, table.get(f'{c10.BLOCKS}.BlockRowOperator'), table.get(f'{c10.BLOCKS}.BlockColumnOperator'))
+    for o in sub3.obs:
+        o.rule = f'{ck.pid}.O8'
+        ck.obs.append(o)
+    ck.floors.extend((r.replace('B6', 'O8'), c, m, w) for r, c, m, w in sub3.floors)
+    ck.floor('O8', sum(1 for o in ck.obs if o.rule.endswith('O8')), 1, 'construction checks of the block row / column')
+
     for name, acc, kind in (('in_size', 'IN', 'size'), ('out_size', 'OUT', 'size'), ('in_promoted_dtype', 'IN', 'dtype'), ('out_promoted_dtype', 'OUT', 'dtype')):
         r = table.resolve(base, name)
         if r is None or not isinstance(r.node, ast.FunctionDef):
